@@ -80,6 +80,9 @@ func runScenario(bin, dir string, sc *scenario) (res runResult) {
 	defer stderrF.Close()
 	cmd := exec.Command(bin, "-sshd-pipe-path", sshdPath, "-auditd-pipe-path", auditPath, "-app-events-output", outPath)
 	cmd.Env = append(os.Environ(), "NODE_NAME="+nodeName)
+	if sc.GoMaxProcs > 0 {
+		cmd.Env = append(cmd.Env, fmt.Sprint("GOMAXPROCS=", sc.GoMaxProcs))
+	}
 	cmd.Stdout = stderrF
 	cmd.Stderr = stderrF
 	cmd.Dir = dir
